@@ -21,13 +21,13 @@ Proof. unfold len, drop. rewrite skipn_length. lia. Qed.
 
 Lemma read_raw_ok c s n : bufok s -> n <= 765 -> 765 <= c_bufsize c -> n <= len (s_rest s) ->
   exists s', read_raw c s n = Ok (take n (s_rest s), s') /\ s_rest s' = drop n (s_rest s) /\ bufok s' /\ s_n s' = s_n s + n
-    /\ s_cur s' = s_cur s /\ s_crc s' = s_crc s /\ s_header s' = s_header s.
+    /\ s_cur s' = s_cur s /\ s_crc s' = s_crc s /\ s_header s' = s_header s /\ same_but_read s s'.
 Proof.
   intros Hb Hn Hc Hl. unfold read_raw, bufok in *.
   destruct (n <=? s_buf s) eqn:E1.
-  - eexists. split; [reflexivity|]. cbn [upd_read s_rest s_buf s_n s_cur s_crc s_header]. rewrite len_drop'. repeat split; lia.
+  - eexists. split; [reflexivity|]. unfold same_but_read. cbn [upd_read s_rest s_buf s_n s_cur s_crc s_header s_ts s_lto s_defs s_devidx s_fdescs s_acc s_fileid s_msgs s_events]. rewrite len_drop'. repeat split; lia.
   - replace (n <=? s_buf s + N.min (len (s_rest s) - s_buf s) (c_bufsize c)) with true by (symmetry; apply N.leb_le; lia).
-    eexists. split; [reflexivity|]. cbn [upd_read s_rest s_buf s_n s_cur s_crc s_header]. rewrite len_drop'. repeat split; lia.
+    eexists. split; [reflexivity|]. unfold same_but_read. cbn [upd_read s_rest s_buf s_n s_cur s_crc s_header s_ts s_lto s_defs s_devidx s_fdescs s_acc s_fileid s_msgs s_events]. rewrite len_drop'. repeat split; lia.
 Qed.
 
 Lemma read_raw_short c s n : bufok s -> len (s_rest s) < n ->
@@ -44,7 +44,7 @@ Lemma read_n_ok c s n : c_checksum c = true -> bufok s -> n <= 765 -> 765 <= c_b
     /\ s_cur s' = wrap 32 (s_cur s + n) /\ s_crc s' = write (s_crc s) (take n (s_rest s)) /\ s_header s' = s_header s.
 Proof.
   intros Hck Hb Hn Hc Hl. unfold read_n, bind.
-  destruct (read_raw_ok c s n Hb Hn Hc Hl) as (s1 & E & R & B & Nn & Cu & Cr & Hh). rewrite E, Hck.
+  destruct (read_raw_ok c s n Hb Hn Hc Hl) as (s1 & E & R & B & Nn & Cu & Cr & Hh & _). rewrite E, Hck.
   eexists. split; [reflexivity|]. cbn [upd_read s_rest s_buf s_n s_cur s_crc s_header]. unfold bufok in *. cbn [upd_read s_rest s_buf].
   rewrite Cu, Cr. repeat split; assumption.
 Qed.
@@ -111,7 +111,7 @@ Proof.
   intros Hck Hbs Hb Hcrc. unfold decode_file_header, hdr_ok, bind.
   destruct (s_rest s) as [|hs r] eqn:Er.
   { destruct (read_raw_short c s 1 Hb) as (e & E & He); [rewrite Er; cbn; lia|]. rewrite E. exists e. split; [reflexivity|]. intros _. apply He. exact Er. }
-  destruct (read_raw_ok c s 1 Hb ltac:(lia) Hbs) as (s1 & E1 & R1 & B1 & N1 & C1 & K1 & H1); [rewrite Er; unfold len; cbn [length]; lia|].
+  destruct (read_raw_ok c s 1 Hb ltac:(lia) Hbs) as (s1 & E1 & R1 & B1 & N1 & C1 & K1 & H1 & _); [rewrite Er; unfold len; cbn [length]; lia|].
   rewrite E1, Er. change (take 1 (hs :: r)) with [hs]. cbn [byte_at nth_opt].
   destruct (negb ((hs =? 12) || (hs =? 14))) eqn:Esz.
   { eexists. split; [reflexivity|discriminate]. }
@@ -125,7 +125,7 @@ Proof.
   { apply N.ltb_lt in Elen. destruct (read_raw_short c s1c (hs - 1) B1c) as (e & E & _); [rewrite R1c; unfold len in *; cbn [length] in Elen; lia|].
     rewrite E. eexists. split; [reflexivity|discriminate]. }
   apply N.ltb_ge in Elen.
-  destruct (read_raw_ok c s1c (hs - 1) B1c ltac:(lia) Hbs) as (s2 & E2 & R2 & B2 & N2 & C2 & K2 & H2); [rewrite R1c; unfold len in *; cbn [length] in Elen; lia|].
+  destruct (read_raw_ok c s1c (hs - 1) B1c ltac:(lia) Hbs) as (s2 & E2 & R2 & B2 & N2 & C2 & K2 & H2 & _); [rewrite R1c; unfold len in *; cbn [length] in Elen; lia|].
   rewrite E2, R1c.
   assert (Lr : (N.to_nat (hs - 1) <= length r)%nat) by (unfold len in Elen; cbn [length] in Elen; lia).
   set (b := take (hs - 1) r).
@@ -285,7 +285,7 @@ Proof.
     replace (dsize <=? len (s_rest s1)) with true in Hdis by (symmetry; apply N.leb_le; lia).
     destruct Hdis as (s2 & E2 & R2 & B2 & K2 & N2 & H2); [lia|]. rewrite E2.
     unfold decode_crc, bind.
-    destruct (read_raw_ok c s2 2 B2 ltac:(lia) Hbs) as (s3 & E3 & R3 & B3 & N3 & C3 & K3 & H3); [rewrite R2, len_drop'; lia|]. rewrite E3, Hck.
+    destruct (read_raw_ok c s2 2 B2 ltac:(lia) Hbs) as (s3 & E3 & R3 & B3 & N3 & C3 & K3 & H3 & _); [rewrite R2, len_drop'; lia|]. rewrite E3, Hck.
     cbn [andb].
     assert (Rs2 : s_rest s2 = drop (hs + dsize) (s_rest s)) by (rewrite R2, R1; apply drop_drop').
     rewrite Rs2. set (fc := take 2 (drop (hs + dsize) (s_rest s))).
